@@ -24,7 +24,7 @@ Record murmur_constants_stmt : Prop := {
     [0; 0xCC9E2D51; 0x1B873593; 0xFFFFFFFC; 0; 4; 0xFF; 1; 0xFF; 8; 2; 0xFF; 16; 3; 24; 15; 0xFFFFFFFF; 17; 13;
      0xFFFFFFFF; 19; 5; 0xE6546B64; 0; 3; 3; 2; 0xFF; 16; 2; 3; 1; 0xFF; 8; 1; 2; 3; 0xFF; 15; 0xFFFFFFFF; 17;
      0xFFFFFFFF; 16; 0x85EBCA6B; 0xFFFFFFFF; 13; 0xC2B2AE35; 0xFFFFFFFF; 16; 0xFFFFFFFF];
-  mc_shape : gen_c19_shape_ok = true
+  mc_shape : gen_c19_murmur_shape_ok = true
 }.
 Lemma murmur_constants : murmur_constants_stmt.
 Proof. split; reflexivity. Qed.
